@@ -140,6 +140,29 @@ CHECKS.update({
    design_ref='DESIGN.md 4 (C07)'),
 })
 
+CHECKS.update({
+ 'C20': dict(
+   category='model_checking', engine='sympeg',
+   technique='relational SMT (z3) query: two symbolic inputs equal up to letter case over the live parser model compiled with ignore_case=True (sympeg); acceptance and fingerprint must coincide; witness pairs replayed on the real textX',
+   text=("Bounded relational solver verdict per grammar of the keyword/regex family, autokwd on and off, and input length n <= 6 / 8: no pair of inputs that differ only in letter case "
+         "is accepted differently or with a different structure; a case-sensitive metamodel of the same grammar is built first in the same process. Values keeping their case is checked on replayed witness pairs."),
+   design_ref='DESIGN.md 4 (C20)'),
+ 'C21': dict(
+   category='model_checking', engine='sympeg',
+   technique='SMT (z3) queries over the live matchers and parser models compiled with autokwd on and off (sympeg): per literal and position, and per whole input with an input-level glue predicate; counterexamples replayed',
+   text=("Bounded solver verdict per grammar and input length n <= 5 / 8: (1) no identifier-like literal's live matcher succeeds when a word character follows, at any position; "
+         "(2) other literals match identically with and without autokwd; (3) every input accepted with autokwd in which no keyword-like literal is directly followed by a word "
+         "character is accepted without autokwd with the same fingerprint."),
+   design_ref='DESIGN.md 4 (C21)'),
+ 'C22': dict(
+   category='exploration', engine='sympeg+refpeg',
+   technique='solver-enumerated base inputs (z3 AllSAT over character classes of the live parser model) mutated at every reference token boundary and replayed on the real textX against the reference semantics; verdict by replay',
+   text=("Witness replay, labelled as such: for every accepted character-class string of length <= 5 / 7 of each grammar (solver-enumerated, i.e. every parse structure), every token "
+         "boundary of the reference derivation receives every active whitespace character, a Comment match, and every inactive whitespace character; the real outcome must equal the "
+         "reference semantics, and active insertions must leave the real model unchanged."),
+   design_ref='DESIGN.md 4 (C22)'),
+})
+
 NA = {
  'C16': "history quantifier over whole-program API calls; no data dimension to make symbolic — only enumeration of concrete call sequences would remain (DESIGN.md 5)",
  'C17': "decided by file-system I/O, glob, abspath and repository objects handed between nested real loads; only enumeration of import graphs would remain (DESIGN.md 5)",
